@@ -165,7 +165,16 @@ pub enum Hello {
 fn rustls_spec() -> BoxedStrategy<RustlsSpec> {
     (
         prop_oneof![3 => Just("main.x".to_string()), 1 => "[a-z]{1,20}\\.[a-z]{1,10}\\.x", 1 => "[a-z]{60}\\.[a-z]{60}\\.[a-z]{60}\\.x"],
-        prop::collection::vec(prop_oneof![Just("h2".to_string()), Just("http/1.1".to_string()), Just("h3".to_string()), "[a-z]{1,40}"], 0..6),
+        prop_oneof![
+            5 => prop::collection::vec(prop_oneof![Just("h2".to_string()), Just("http/1.1".to_string()), Just("h3".to_string()), "[a-z]{1,40}"], 0..6),
+            // hellos of 4-15 KiB in one record (the size of several post-quantum key shares / padding):
+            // the peeked bytes are replayed to the TLS stack in more than one read
+            1 => (90usize..330, prop_oneof![Just("h2".to_string()), Just("http/1.1".to_string())]).prop_map(|(n, last)| {
+                let mut v: Vec<String> = (0..n).map(|i| format!("proto-{:04}-{}", i, "x".repeat(30))).collect();
+                v.push(last);
+                v
+            }),
+        ],
         0u8..3,
         prop_oneof![4 => Just(None), 1 => (40u16..300).prop_map(Some)],
         prop_oneof![6 => Just(true), 1 => Just(false)],
@@ -378,7 +387,7 @@ impl Suite for SocketSuite {
         "listener-on-socket"
     }
     fn rule(&self) -> String {
-        "rustls client hellos (as above, incl. several-record ones) written to a socket pair in 1-6 generated pieces, each piece only after the listener has drained the previous one (FIONREAD), so the listener's read boundaries are exactly the cuts; the real TlsListener::listen + TlsAcceptor::accept run on the other end; oracle: reported client random is the hello's (mandatory for single-record hellos, otherwise absent is allowed), SNI and ALPN seen by the acceptor are the client's, the handshake completes on exactly the bytes sent and 4 KiB of application data echo intact both ways; non-trivial = a cut inside the first 43 bytes or a hello over several records".into()
+        "rustls client hellos (as above, incl. several-record ones and single-record ones of 4-15 KiB built with long ALPN lists) written to a socket pair in 1-6 generated pieces, each piece only after the listener has drained the previous one (FIONREAD), so the listener's read boundaries are exactly the cuts; the real TlsListener::listen + TlsAcceptor::accept run on the other end; oracle: reported client random is the hello's (mandatory for single-record hellos, otherwise absent is allowed), SNI and ALPN seen by the acceptor are the client's, the handshake completes on exactly the bytes sent and 4 KiB of application data echo intact both ways; non-trivial = a cut inside the first 43 bytes or a hello over several records".into()
     }
     fn strategy(&self, _: Tier) -> BoxedStrategy<SocketCase> {
         (rustls_spec(), prop::collection::vec(any::<u16>(), 0..6), 0u8..2)
@@ -396,6 +405,9 @@ impl Suite for SocketSuite {
         if early {
             v.push("cut-inside-random");
         }
+        if b.len() > 4096 {
+            v.push("hello-larger-than-4-KiB");
+        }
         if multi {
             v.push("several-records");
         }
@@ -405,7 +417,7 @@ impl Suite for SocketSuite {
         v
     }
     fn required_classes(&self) -> Vec<&'static str> {
-        vec!["nontrivial", "cut-inside-random", "several-records"]
+        vec!["nontrivial", "cut-inside-random", "several-records", "hello-larger-than-4-KiB"]
     }
     fn check(&self, c: &SocketCase) -> Verdict {
         let c = c.clone();
